@@ -199,6 +199,10 @@ func (m *c11Mon) check(prev, cur *mDump, c *mCmd, idx uint64, res []int64) {
 		for ti := range pb.tracts {
 			pv, cv := pb.tracts[ti].ver, cb.tracts[ti].ver
 			named := (k == "ChangeTract" || k == "CommitRSChunk") && ok && c11NamesTract(c, pb.id, ti)
+			if named && c.noVersion {
+				// outside `submittable`: an entry without a version is stored unchecked (theorem commitrs_without_version_unchecked)
+				continue
+			}
 			switch {
 			case cv < pv:
 				m.report("d-version-decreased:"+k, "a tract's version decreased", c, idx, map[string]interface{}{"blob": pb.id, "tract": ti, "before": pv, "after": cv})
